@@ -976,3 +976,22 @@ def place_path(known, pl):
         return []
     suffix = tuple(x for x in norm_proj(pl['p']) if x != ('d',))
     return [base + suffix for base in known[pl['l']]]
+
+
+def strip_generics(name):
+    out = []
+    depth = 0
+    for ch in name:
+        if ch == '<':
+            depth += 1
+        elif ch == '>':
+            depth -= 1
+        elif depth == 0:
+            out.append(ch)
+    return ''.join(out)
+
+
+def method_name(name):
+    """last path segment of a callee name, generic arguments removed"""
+    segs = [x for x in strip_generics(name).split('::') if x and x != ' as ']
+    return segs[-1].strip() if segs else name
